@@ -71,6 +71,7 @@ import GM.Proof.QuoteSimListClose
 import GM.Proof.QuoteSimLists
 import GM.Proof.QuoteSimFE6
 import GM.Props.Blocks
+import GM.Props.C08E2E
 
 namespace GM.Props.C08
 open GM GM.LineRec GM.Proof.LineRec
@@ -468,7 +469,7 @@ theorem quote_setext_close_keeps_flags {sA sA' sB sB' : St} {node t : Nat} {uA u
 /-- **The blank-line flags in whole runs** (the first of the three pieces, as a statement about ANY covered parser
     set): for a source without a blank line, related final stores have equal `HasBlankPreviousLines` flags on every
     node but the Document. -/
-theorem quote_flags_equal {src : Bytes} (hfl : FL src) {nA nB : List Node} (hn : StoreRel src nA nB) :
+theorem quote_flags_equal {src : Bytes} (hfl : FL src) {nA nB : List GM.Blocks.Node} (hn : StoreRel src nA nB) :
     FlagsEq nA nB := flagsEq_of_rel hfl hn
 
 /-- the same with the provisos spelled out, the empty document included (for which the statement holds vacuously) -/
@@ -601,5 +602,41 @@ example : GM.Blocks.quoteSim (strBytes "a\n\n- b\n\n  c\n- d\n  1. e\n\n  2. f\n
 example : ¬ C08ClassG (strBytes "a\n===\n") ∧ ¬ C08ClassG (strBytes "---\n") := by decide +kernel
 
 end blocks
+
+/-- (re-export of `GM.Props.C08E2E.renderer_wraps_blockquote`) **the renderer on Document[Blockquote[xs]]** (html.go:renderBlockquote): `<blockquote>⏎`, the children, `</blockquote>⏎` — for
+    every renderer configuration and every list of children -/
+theorem renderer_wraps_blockquote : type_of% @GM.Props.C08E2E.renderer_wraps_blockquote := @GM.Props.C08E2E.renderer_wraps_blockquote
+
+/-- (re-export of `GM.Props.C08E2E.parse_quote_prefix_of_store_relation`) **C08 at the level of the renderer's tree, from the store relation**: `parseDoc` of the block-quoted source is
+    Document[Blockquote[children of `parseDoc D`]] -/
+theorem parse_quote_prefix_of_store_relation : type_of% @GM.Props.C08E2E.parse_quote_prefix_of_store_relation := @GM.Props.C08E2E.parse_quote_prefix_of_store_relation
+
+/-- (re-export of `GM.Props.C08E2E.convert_quote_prefix_of_store_relation`) **C08 at HTML level, from the store relation** (any class of sources for which the block-level simulation is proved) -/
+theorem convert_quote_prefix_of_store_relation : type_of% @GM.Props.C08E2E.convert_quote_prefix_of_store_relation := @GM.Props.C08E2E.convert_quote_prefix_of_store_relation
+
+/-- (re-export of `GM.Props.C08E2E.convert_quote_prefix`) **`convert_quote_prefix` — C08 at HTML level, documents with lists and blank lines**: for every option set, every source of
+    `C08ClassG` (no tab, no CR, not empty, last byte not a space, no setext underline pattern) without `[`, given the inline
+    invariant for this source -/
+theorem convert_quote_prefix : type_of% @GM.Props.C08E2E.convert_quote_prefix := @GM.Props.C08E2E.convert_quote_prefix
+
+/-- (re-export of `GM.Props.C08E2E.convert_quote_prefix_lists`) the same for `C08ClassF` (lists, no blank line) -/
+theorem convert_quote_prefix_lists : type_of% @GM.Props.C08E2E.convert_quote_prefix_lists := @GM.Props.C08E2E.convert_quote_prefix_lists
+
+/-- (re-export of `GM.Props.C08E2E.convert_quote_prefix_no_final_newline`) the same for `C08ClassW` (no final line feed needed, none of `- * + 0-9`) -/
+theorem convert_quote_prefix_no_final_newline : type_of% @GM.Props.C08E2E.convert_quote_prefix_no_final_newline := @GM.Props.C08E2E.convert_quote_prefix_no_final_newline
+
+/-- (re-export of `GM.Props.C08E2E.convert_quote_prefix_raw_leaves`) **without the inline hypothesis: documents whose leaves are raw blocks** — every block with lines is a CodeBlock, a
+    FencedCodeBlock or an HTMLBlock (in any nesting of lists and quotes of the class) -/
+theorem convert_quote_prefix_raw_leaves : type_of% @GM.Props.C08E2E.convert_quote_prefix_raw_leaves := @GM.Props.C08E2E.convert_quote_prefix_raw_leaves
+
+/-- (re-export of `GM.Props.C08E2E.inline_invariant_good_lines`) **the inline hypothesis holds for blocks of plain-text lines** (cmfrag's `GoodLine`), wherever the lines lie -/
+theorem inline_invariant_good_lines : type_of% @GM.Props.C08E2E.inline_invariant_good_lines := @GM.Props.C08E2E.inline_invariant_good_lines
+
+/-- (re-export of `GM.Props.C08E2E.convert_quote_prefix_good_lines`) **without the inline hypothesis: any block structure of the class, plain-text inline content** — every Paragraph / Heading /
+    TextBlock of the block tree of `D` consists of good lines (`GoodBlocks`) -/
+theorem convert_quote_prefix_good_lines : type_of% @GM.Props.C08E2E.convert_quote_prefix_good_lines := @GM.Props.C08E2E.convert_quote_prefix_good_lines
+
+/-- (re-export of `GM.Props.C08E2E.convert_quote_prefix_checked`) **… with decidable hypotheses**: `C08ClassG D`, `NoBracket D` and `goodLinesCheck D` are decidable -/
+theorem convert_quote_prefix_checked : type_of% @GM.Props.C08E2E.convert_quote_prefix_checked := @GM.Props.C08E2E.convert_quote_prefix_checked
 
 end GM.Props.C08
